@@ -303,4 +303,29 @@ example : solve (α := Int)
 example : LastTargetExact (α := Int) ⟨fun _ => .ok, fun _ => true, fun l s d => if s = 10 * l then d else 0⟩ := by
   intro l d; simp
 
+
+/-- **C19 (the Python caller).** An array comes back from the Python-facing `Solve` only when the integration succeeded – and then
+    it holds the state advanced over exactly `dt`; every failure of `Solve` reaches the caller as an exception. -/
+theorem pywrap_returned_exact (env : Env α) (hsub : LastTargetExact env) (y0 dt yf : α)
+    (h : pyWrapSolve env 0 y0 dt = .returned yf) : yf = y0 + dt := by
+  unfold pyWrapSolve at h
+  cases hs : solve env 0 y0 dt with
+  | success y =>
+    rw [hs] at h
+    simp only [PyResult.returned.injEq] at h
+    rw [← h]
+    exact solve_success_exact env hsub y0 dt y hs
+  | fail l y => rw [hs] at h; cases h
+
+theorem pywrap_raises_iff_fail (env : Env α) (y0 dt : α) :
+    pyWrapSolve env 0 y0 dt = .raised ↔ ∃ l y, solve env 0 y0 dt = .fail l y := by
+  unfold pyWrapSolve
+  cases hs : solve env 0 y0 dt with
+  | success y => simp
+  | fail l y => simp
+
+/-- the Odeint wrapper raises exactly when the step budget is exceeded -/
+theorem odeint_pywrap_budget (mx calls : Nat) : odeintPyWrap mx calls = true ↔ calls ≤ mx := by
+  unfold odeintPyWrap; exact odeint_budget mx calls
+
 end Naunet.C19
